@@ -4,3 +4,4 @@ L=/repo/Lib
 INC="-I$L/core -I$L/core/public -I$L/core/fs -I$L/core/poll -I$L/utils -I$L/structs -I$L/structs/public -I$L/mem -I$L/mem/public -I$L/thpool -I$L/thpool/public"
 SRCS="$L/utils/*.c $L/structs/*.c $L/mem/mem.c $L/thpool/thpool.c $L/core/main.c $L/core/ctx.c $L/core/evts.c $L/core/mod.c $L/core/ps.c $L/core/src.c $L/core/fs/fs_noop.c $L/core/poll/epoll.c $L/core/poll/cmn_linux.c"
 clang -g -O0 -fsanitize=address,undefined -fno-omit-frame-pointer -D_GNU_SOURCE -DLIBMODULE_LOG_CTX=CORE -std=gnu11 $INC $SRCS "$1" -o "${1%.c}" -lpthread -ldl 2>&1 | grep -E "error|undefined|multiple" | head
+# replay_thpool_partial_start.c additionally needs: -Wl,--wrap=pthread_create (see its header comment)
